@@ -233,6 +233,11 @@ func (s *c16) Gen(r *kit.Rng) (kit.Op, bool) {
 	if s.steps > s.maxSteps {
 		return kit.Op{K: "sweep"}, true
 	}
+	// a further wrapper over the SAME wire message as an existing one
+	if len(s.objs) > 0 && len(s.objs) < 3 && r.Chance(1, 16) {
+		k := r.Intn(len(s.objs))
+		return kit.Op{K: "block", D: kit.Hex(s.objs[k].raw), N: []int64{4, int64(k)}}, true
+	}
 	// a further wrapper next to the existing ones
 	if len(s.objs) > 0 && len(s.objs) < 3 && r.Chance(1, 8) {
 		blk := c16Block(r, s.st)
@@ -346,6 +351,15 @@ func (s *c16) Apply(o kit.Op) *kit.Violation {
 			}
 			s.st.Probe("block-from-faulty-but-complete-reader")
 			s.blk, s.own = b, b.MsgBlock()
+		case 4:
+			// a second wrapper over the message object another wrapper holds
+			k := int(o.Arg(1))
+			if k < 0 || k >= len(s.objs) || !bytes.Equal(s.objs[k].raw, raw) {
+				return nil
+			}
+			s.own = s.objs[k].own
+			s.blk = bchutil.NewBlock(s.own)
+			s.st.Probe("two-wrappers-over-one-message")
 		default:
 			s.own = &own
 			s.blk = bchutil.NewBlockFromBlockAndBytes(&own, append([]byte(nil), raw...))
